@@ -32,7 +32,7 @@ def shards(tier):
 def cases(max_ops):
     return st.fixed_dictionaries({
         'kind': st.sampled_from(['hh2', 'hh2', 'hier', 'prolong', 'vanish']),
-        'spec': pairs.pair_specs(curves=('UnitSquare', 'PiSquare', 'LShape', 'Circle', 'Stadium1', 'Dee', 'Stadium')),
+        'spec': pairs.pair_specs(curves=('UnitSquare', 'PiSquare', 'LShape', 'Circle', 'Stadium1', 'Dee', 'Stadium', 'Bessel')),
         'ops': gens.graded_histories(max_ops=max_ops, allow=('t', 'x', 'tx')),
         'more': gens.histories(max_ops=12, allow=('t', 'x', 'tx')),
         'data': st.sampled_from(['dirichlet', 'mild', 'initial', 'both', 'both']),
